@@ -60,7 +60,7 @@ func (or *oracle) fail(sig, kind string, j *Job, mode, what, class string, a, b 
 	// keep few examples per kind of difference (hxlib keeps 20 failures in
 	// total); unclassified differences get more room and are emitted first
 	limit := 1
-	if class == "other" {
+	if strings.HasPrefix(class, "other") {
 		limit = 4
 	}
 	if or.perK[key] > limit {
@@ -739,7 +739,7 @@ func runOracle(cf *hxlib.CommonFlags, o *hxlib.Out) {
 
 func rank(f failRec) int {
 	c := fmt.Sprint(f.detail["class"])
-	if c == "other" {
+	if strings.HasPrefix(c, "other") {
 		return 0
 	}
 	if f.sig == "c08-alias-collision" {
